@@ -96,10 +96,22 @@ def _leaf_one(chk, func, clsname, pi, path, out, cur):
 
 # ----------------------------------------------------------------------------- Literal
 def literal_obligations(chk):
+    from pyvc.stmt import LoopSpec
+    from pyvc.env import _MISSING
     I = lw.make_interp()
     func = f"{UN}.LiteralUnmarshaller.__call__"
     nv = z3.Function("n_values", Val, IntS)
     vv = z3.Function("value_at", Val, IntS, Val)
+    pyeq = z3.Function("py_eq", Val, Val, BoolS)
+
+    def equal_hook(I, path, a, b, identity):
+        if not identity and isinstance(a, SV) and isinstance(b, SV):
+            return SBool(pyeq(a.t, b.t))
+        return _MISSING
+    I.hooks["equal"] = equal_hook
+    # loops over the declared values (early return on the first equal literal): trivial invariants
+    for k in (0, 1):
+        I.loop_specs[(func, k)] = LoopSpec(f"literals{k}", lambda I, p, e, k_: None, lambda I, p, e, k_: [])
 
     def mk(I, path):
         t = path.fresh("t")
@@ -111,6 +123,8 @@ def literal_obligations(chk):
         return [slf, SV(val)], {}, {"t": t}
     results = I.run_function(func, mk)
     for pi, (path, out, obls, writes, cur) in enumerate(results):
+        if out.kind == "end":
+            continue
         _literal_one(chk, func, pi, path, out, cur, nv, vv)
 
 
@@ -124,7 +138,7 @@ def _literal_one(chk, func, pi, path, out, cur, nv, vv):
         chk.add(Ob(func, nm, pid, hy, z3.BoolVal(False), {"engine": str(out.value)}))
         return
     r = to_val(out.value)
-    # contrapositive with a schema hypothesis: if no declared value equals the result we derive False
+    # the returned object is one of the declared literal objects themselves (contrapositive with a schema)
     chk.add(Ob(func, nm, pid, hy + [Q([IntS], lambda j: z3.Implies(z3.And(j >= 0, j < nv(t)), vv(t, j) != r), name="not-declared")],
                z3.BoolVal(False)))
 
